@@ -100,7 +100,12 @@ def run_families(run, fams, model_args=()):
             rc, path, sc, tr = harness(["-mode", "batch", "-family", fam, "-n", n, "-seed", seed])
         rcm, out = _model(path, model_args)
         os.unlink(path)
-        r, cv, sm, _ = parse_model(out)
+        r, cv, sm, mm = parse_model(out)
+        if mm:
+            # MISMATCH lines of the driver in trace mode = event lines it could not parse: part of the trace was
+            # not checked at all (audit-2 L8: these lines used to be dropped)
+            run.violation("harness-failed:unparsed-events:" + fam, {"family": fam, "lines": mm[:20]},
+                          "the model driver could not parse %d event line(s) of family %s: %s" % (len(mm), fam, mm[0][:160]), True)
         if rc != 0 or rcm != 0 or "SUMMARY" not in out or len(r) != n:
             run.violation("harness-failed:" + fam, {"family": fam, "out": out[-1500:]},
                           "composite harness or model driver failed to run family %s" % fam, True)
